@@ -192,6 +192,7 @@ func (l *Lexer) Next() (TokenType, []byte) {
 		if l.consumeIdentifierToken() {
 			return PrivateIdentifierToken, l.r.Shift()
 		}
+		l.r.Move(-1)
 	default:
 		if l.consumeIdentifierToken() {
 			if prevNumericLiteral {
@@ -456,7 +457,11 @@ func (l *Lexer) consumeOperatorToken() TokenType {
 			}
 			return EqEqEqToken
 		}
-		return opEqTokens[c]
+		if tt, ok := opEqTokens[c]; ok {
+			return tt
+		}
+		l.r.Move(-1) // ~= and ?= are two tokens
+		return opTokens[c]
 	} else if l.r.Peek(0) == c && (c == '+' || c == '-' || c == '*' || c == '&' || c == '|' || c == '?' || c == '<') {
 		l.r.Move(1)
 		if l.r.Peek(0) == '=' && c != '+' && c != '-' {
